@@ -388,7 +388,11 @@ pub fn check(c: &Case, known: &Known) -> Outcome {
     out
 }
 
-pub fn replay_any(_c: &str, case: &Value, known: &Known) -> Option<Outcome> {
+pub fn replay_any(name: &str, case: &Value, known: &Known) -> Option<Outcome> {
+    if name == "fstring-compositions" {
+        let c: FCase = serde_json::from_value(case.clone()).ok()?;
+        return Some(fcheck(&c, known));
+    }
     let c: Case = serde_json::from_value(case.clone()).ok()?;
     Some(check(&c, known))
 }
@@ -397,8 +401,260 @@ pub fn run(ctx: &Ctx) -> i32 {
     ctx.run_replays(|c, case| replay_any(c, case, &ctx.known));
     ctx.shrink_iters.store(500, std::sync::atomic::Ordering::Relaxed);
     ctx.tape_search("value-first-literals", ctx.n(20_000, 1_500_000), 60, gen_case, |c| check(c, &ctx.known));
+    ctx.tape_search("fstring-compositions", ctx.n(6_000, 400_000), 80, gen_fcase, |c| fcheck(c, &ctx.known));
     ctx.finish(
-        "value first: a Unicode string biased to hazardous pieces (quotes, backslash, backtick, newline, CR, tab, --, /* */, ;, braces, $, %, _, NUL, non-BMP, combining marks, injection idioms) is spelled in one of the documented forms (double / single / triple quotes with escapes, raw string, f-string without interpolation) by an encoder written from the book; integers in decimal with underscores, hex, octal, binary up to i64::MAX; floats with fraction, exponent, underscores; booleans; through `select {v = <lit>}` and through a relation literal. Oracle 1 (sqlite, generic): the value SQLite returns equals the intended value (byte-exact text, exact i64, f64 within 1e-14 relative (SQLite's decimal parsing is not correctly rounded)). Oracle 2 (12 dialects): under sqlparser's tokenizer for the dialect the statement has the same token sequence as with the literal 'x' and the string token unescapes to the value. non-trivial = hazardous character / non-canonical spelling; distinct = source",
+        "value first: a Unicode string biased to hazardous pieces (quotes, backslash, backtick, newline, CR, tab, --, /* */, ;, braces, $, %, _, NUL, non-BMP, combining marks, injection idioms) is spelled in one of the documented forms (double / single / triple quotes with escapes, raw string, f-string without interpolation) by an encoder written from the book; a second generator composes f-strings from literal fragments, interpolated let-bound string constants, a string passed through a function parameter and a text column (expected value = the concatenation); integers in decimal with underscores, hex, octal, binary up to i64::MAX; floats with fraction, exponent, underscores; booleans; through `select {v = <lit>}` and through a relation literal. Oracle 1 (sqlite, generic): the value SQLite returns equals the intended value (byte-exact text, exact i64, f64 within 1e-14 relative (SQLite's decimal parsing is not correctly rounded)). Oracle 2 (12 dialects): under sqlparser's tokenizer for the dialect the statement has the same token sequence as with the literal 'x' and the string token unescapes to the value. non-trivial = hazardous character / non-canonical spelling; distinct = source",
         &["date / time literals are covered for syntax by C07 only", "sqlparser's per-dialect tokenizer is the model of each engine's lexical rules"],
     )
+}
+
+// ---------------------------------------------------------------------------------------
+// f-string compositions: fragments, interpolated string constants (let / function parameter)
+// and a text column; the value is the concatenation
+
+#[derive(Clone, Debug, Serialize, Deserialize)]
+pub enum Part {
+    /// literal text between placeholders
+    Frag(String),
+    /// `{kN}`: a let-bound string constant
+    Const(usize),
+    /// `{p}`: the parameter of the wrapping function, bound to a string literal at the call
+    Param,
+    /// `{s}`: the text column of table `one`
+    Col,
+}
+
+#[derive(Clone, Debug, Serialize, Deserialize)]
+pub struct FCase {
+    /// (value, PRQL spelling) of the constants k0, k1, ...
+    pub consts: Vec<(String, String)>,
+    pub param: Option<(String, String)>,
+    pub parts: Vec<Part>,
+}
+
+const COL_VALUE: &str = "S\u{2603}'c";
+
+fn fesc(v: &str) -> String {
+    let mut o = String::new();
+    for c in v.chars() {
+        match c {
+            '\\' => o.push_str("\\\\"),
+            '\n' => o.push_str("\\n"),
+            '\r' => o.push_str("\\r"),
+            '\t' => o.push_str("\\t"),
+            '{' => o.push_str("{{"),
+            '}' => o.push_str("}}"),
+            '"' => o.push_str("\\\""),
+            c => o.push(c),
+        }
+    }
+    o
+}
+
+fn plain_spell(t: &mut Tape, v: &str) -> String {
+    // double / single quoted only (the other forms are the first sub-check's subject)
+    let q = if t.chance(1, 2) { '"' } else { '\'' };
+    let mut o = String::new();
+    o.push(q);
+    for c in v.chars() {
+        match c {
+            '\\' => o.push_str("\\\\"),
+            '\n' => o.push_str("\\n"),
+            '\r' => o.push_str("\\r"),
+            '\t' => o.push_str("\\t"),
+            c if c == q => {
+                o.push('\\');
+                o.push(c)
+            }
+            c => o.push(c),
+        }
+    }
+    o.push(q);
+    o
+}
+
+fn small_value(t: &mut Tape) -> String {
+    let mut v = gen_value(t);
+    // NUL and the "already escaped" quote sequences are recorded findings of the first sub-check
+    v = v.replace('\0', "0");
+    if v.chars().count() > 6 {
+        v = v.chars().take(6).collect();
+    }
+    v
+}
+
+pub fn gen_fcase(t: &mut Tape) -> FCase {
+    let nconst = t.choose(3);
+    let consts: Vec<(String, String)> = (0..nconst)
+        .map(|_| {
+            let v = small_value(t);
+            let s = plain_spell(t, &v);
+            (v, s)
+        })
+        .collect();
+    let param = if t.chance(1, 3) {
+        let v = small_value(t);
+        let s = plain_spell(t, &v);
+        Some((v, s))
+    } else {
+        None
+    };
+    let n = 1 + t.choose(5);
+    let mut parts = vec![];
+    for _ in 0..n {
+        let k = t.weighted(&[4, if consts.is_empty() { 0 } else { 5 }, if param.is_some() { 3 } else { 0 }, 2]);
+        parts.push(match k {
+            0 => Part::Frag(small_value(t)),
+            1 => Part::Const(t.choose(consts.len())),
+            2 => Part::Param,
+            _ => Part::Col,
+        });
+    }
+    if !parts.iter().any(|p| !matches!(p, Part::Frag(_))) {
+        parts.push(Part::Col);
+    }
+    FCase { consts, param, parts }
+}
+
+fn fprogram(c: &FCase) -> String {
+    let mut body = String::new();
+    for p in &c.parts {
+        match p {
+            Part::Frag(v) => body.push_str(&fesc(v)),
+            Part::Const(i) => body.push_str(&format!("{{k{i}}}")),
+            Part::Param => body.push_str("{p}"),
+            // inside the function the column arrives through the second parameter
+            Part::Col => body.push_str(if c.param.is_some() { "{q}" } else { "{s}" }),
+        }
+    }
+    let mut src = String::new();
+    for (i, (_, s)) in c.consts.iter().enumerate() {
+        src.push_str(&format!("let k{i} = {s}\n"));
+    }
+    if let Some((_, ps)) = &c.param {
+        src.push_str(&format!("let g = p q -> f\"{body}\"\nfrom one | select {{v = (g {ps} s)}}\n"));
+    } else {
+        src.push_str(&format!("from one | select {{v = f\"{body}\"}}\n"));
+    }
+    src
+}
+
+fn fexpected(c: &FCase, col: &str) -> String {
+    let mut o = String::new();
+    for p in &c.parts {
+        match p {
+            Part::Frag(v) => o.push_str(v),
+            Part::Const(i) => o.push_str(&c.consts[*i].0),
+            Part::Param => o.push_str(&c.param.as_ref().map(|p| p.0.clone()).unwrap_or_default()),
+            Part::Col => o.push_str(col),
+        }
+    }
+    o
+}
+
+pub fn fcheck(c: &FCase, known: &Known) -> Outcome {
+    let src = fprogram(c);
+    let mut out = Outcome::pass();
+    out.key = hash_of(&src);
+    let interpolated_literals = c.parts.iter().filter(|p| matches!(p, Part::Const(_) | Part::Param)).count();
+    out.nontrivial = interpolated_literals >= 1 && c.parts.len() >= 2;
+    out.classes.push(format!("interpolated_literals={}", interpolated_literals.min(3)));
+    out.sample = Some(json!({"prql": src}));
+    let db = Db {
+        tables: vec![Table {
+            name: "one".into(),
+            cols: vec![Column { name: "id".into(), ty: Ty::Int }, Column { name: "s".into(), ty: Ty::Text }],
+            rows: vec![vec![Val::Int(1), Val::Text(COL_VALUE.into())]],
+        }],
+    };
+    let want = fexpected(c, COL_VALUE);
+    let all_values: Vec<&String> = c
+        .consts
+        .iter()
+        .map(|x| &x.0)
+        .chain(c.param.iter().map(|x| &x.0))
+        .chain(c.parts.iter().filter_map(|p| if let Part::Frag(v) = p { Some(v) } else { None }))
+        .collect();
+    let attribute = |o: &mut Outcome, dn: &str| {
+        // the recorded findings about single literal values apply to each piece and to the
+        // places where two pieces meet
+        if let Some(v) = all_values.iter().find_map(|v| attribute_value(v, known)).or_else(|| attribute_value(&want, known)) {
+            o.verdict = v;
+        } else if dn == "bigquery" && want.contains('\'') && known.is_open("C08-bigquery-quote-doubling") {
+            o.verdict = Verdict::Known("C08-bigquery-quote-doubling".into(), "single quote in a string literal under bigquery".into());
+        } else if want.contains('\\') && !matches!(dn, "sqlite" | "generic") && known.is_open(F_BACKSLASH) {
+            o.verdict = Verdict::Known(F_BACKSLASH.into(), format!("backslash in a string literal under {dn}"));
+        }
+    };
+    // oracle 1: the value SQLite returns
+    for target in ["sqlite", "generic"] {
+        let sql = match util::compile(&src, util::dialect_by_name(target)) {
+            Compiled::Sql(s) => s,
+            Compiled::Err(r) => return Outcome::fail("an f-string over string constants is rejected", json!({"source": src, "error": r})),
+            Compiled::Panic(p) => return Outcome::skip(&format!("compiler_panic {}:{}", p.file, p.line)).class("compiler_panic"),
+        };
+        let got = match exec::run(&db, &sql) {
+            Ok(r) => r.rows.first().and_then(|r| r.first()).cloned().unwrap_or(Val::Null),
+            Err(e) => {
+                let mut o = Outcome::fail("emitted SQL for an f-string fails on SQLite", json!({"source": src, "sql": sql, "error": e.msg()}));
+                attribute(&mut o, target);
+                return o;
+            }
+        };
+        if !matches!(&got, Val::Text(g) if *g == want) {
+            let mut o = Outcome::fail(
+                "the value of an f-string is not the concatenation of its fragments and interpolated values",
+                json!({"source": src, "sql": sql, "target": target, "expected": want, "got": got.show()}),
+            );
+            attribute(&mut o, target);
+            return o;
+        }
+    }
+    // oracle 2: every dialect: the select item is CONCAT(a, b, ..) / a || b || .. / one token, over
+    // string tokens and the column; its concatenation is the value
+    for (dn, d) in DIALECTS {
+        let Compiled::Sql(sql) = util::compile(&src, Some(*d)) else { continue };
+        let toks = match tokens(&sql, dn) {
+            Ok(t) => t,
+            Err(e) => {
+                let mut o = Outcome::fail(
+                    &format!("an f-string breaks tokenisation of the statement under {dn}"),
+                    json!({"source": src, "dialect": dn, "sql": sql, "error": e}),
+                );
+                attribute(&mut o, dn);
+                return o;
+            }
+        };
+        // tokens of the item: after SELECT up to `AS v`
+        let start = toks.iter().position(|t| matches!(t, Token::Word(w) if w.value.eq_ignore_ascii_case("select")));
+        let end = toks.iter().position(|t| matches!(t, Token::Word(w) if w.value.eq_ignore_ascii_case("as")));
+        let (Some(a), Some(b)) = (start, end) else {
+            out.classes.push(format!("shape_not_recognised:{dn}"));
+            continue;
+        };
+        let mut value = String::new();
+        let mut recognised = true;
+        for t in &toks[a + 1..b] {
+            match t {
+                Token::Word(w) if w.value.eq_ignore_ascii_case("concat") => {}
+                Token::Word(w) if w.value == "s" => value.push_str(COL_VALUE),
+                Token::LParen | Token::RParen | Token::Comma | Token::StringConcat => {}
+                t if string_of(t).is_some() => value.push_str(string_of(t).unwrap()),
+                _ => recognised = false,
+            }
+        }
+        if !recognised {
+            out.classes.push(format!("shape_not_recognised:{dn}"));
+            continue;
+        }
+        if value != want {
+            let mut o = Outcome::fail(
+                &format!("the pieces of an f-string do not concatenate to its value under {dn}"),
+                json!({"source": src, "dialect": dn, "sql": sql, "expected": want, "pieces_concatenate_to": value}),
+            );
+            attribute(&mut o, dn);
+            return o;
+        }
+    }
+    out
 }
